@@ -50,7 +50,12 @@ const (
 	trNode   = "TrieNode"
 	trHandle = "Trie"
 	trHolder = "RedisKeyFilter"
+	// a second kind of holder field: *RangeList, whose methods gofn translates (Gen/FnRangeList.lean, generator
+	// gofn_rangelist): the value is `Option RangeList`, a call of a method listed here is a call of that translation
+	trExt = "RangeList"
 )
+
+var trExtMethods = map[string]string{"IsSlotInList": "isSlotInList"}
 
 var trFuncs = []gfFuncSpec{
 	{"NewTrie", "newTrie"},
@@ -59,6 +64,7 @@ var trFuncs = []gfFuncSpec{
 	{"Trie.Search", "search"},
 	{"RedisKeyFilter.FilterCmd", "filterCmd"},
 	{"RedisKeyFilter.FilterKey", "filterKey"},
+	{"RedisKeyFilter.FilterSlot", "filterSlot"},
 }
 
 type trKind int
@@ -71,6 +77,7 @@ const (
 	trCur // *N
 	trHdl // *H
 	trHld // *holder
+	trXt  // *RangeList (translated by gofn)
 )
 
 func (k trKind) lean() string {
@@ -89,6 +96,8 @@ func (k trKind) lean() string {
 		return trHandle
 	case trHld:
 		return trHolder
+	case trXt:
+		return trExt
 	}
 	return "?"
 }
@@ -103,6 +112,8 @@ type trWorld struct {
 	nodeFlds []string // all fields of N in declaration order
 	rootFld  string   // field of H: *N
 	hldFlds  []string // fields of the holder of type *H
+	ext      *types.Named
+	extFlds  []string // fields of the holder of type *RangeList
 	decls    map[string]*ast.FuncDecl
 	writes   map[string]bool // translated function (lean name) writes the heap
 }
@@ -157,6 +168,8 @@ func (f *trFn) kindOf(t types.Type, at ast.Node) trKind {
 				return trHdl
 			case f.w.holder:
 				return trHld
+			case f.w.ext:
+				return trXt
 			}
 		}
 	}
@@ -395,7 +408,7 @@ func (f *trFn) atom(b *gfBuf, e ast.Expr) string {
 				switch f.kindOfExpr(l) {
 				case trCur:
 					t = fmt.Sprintf("(%s).isNone", f.cursor(b, l))
-				case trHdl:
+				case trHdl, trXt:
 					t = fmt.Sprintf("(%s).isNone", f.handleVal(b, l))
 				default:
 					die("%s: comparison with nil outside the subset", f.at(e))
@@ -431,7 +444,7 @@ func (f *trFn) handleVal(b *gfBuf, e ast.Expr) string {
 	}
 	if sel, ok := e.(*ast.SelectorExpr); ok {
 		if id, ok := sel.X.(*ast.Ident); ok && f.obj(id) == f.recv && f.rk == trHld {
-			for _, h := range f.w.hldFlds {
+			for _, h := range append(append([]string{}, f.w.hldFlds...), f.w.extFlds...) {
 				if h == sel.Sel.Name {
 					return fmt.Sprintf("%s.%s", f.name(f.recv), gfLeanIdent(h))
 				}
@@ -451,6 +464,24 @@ func (f *trFn) call(b *gfBuf, c *ast.CallExpr) string {
 	s := f.w.pk.info.Selections[sel]
 	if s == nil || s.Kind() != types.MethodVal {
 		die("%s: call outside the subset", f.at(c))
+	}
+	if f.kindOfExpr(sel.X) == trXt {
+		lean, ok := trExtMethods[sel.Sel.Name]
+		if !ok {
+			die("%s: method %s of %s is not one gofn translates", f.at(c), sel.Sel.Name, trExt)
+		}
+		d := gfFindDecl(f.w.pk, trExt+"."+sel.Sel.Name)
+		sig := s.Obj().Type().(*types.Signature)
+		if f.w.pk.info.Defs[d.Name] != s.Obj() || sig.Params().Len() != 1 || len(c.Args) != 1 || sig.Results().Len() != 1 ||
+			f.kindOf(sig.Params().At(0).Type(), c) != trStr || f.kindOf(sig.Results().At(0).Type(), c) != trBool {
+			die("%s: callee %s.%s is not the translated method (string) bool", f.at(c), trExt, sel.Sel.Name)
+		}
+		h := f.tmp()
+		b.add("let %s ← %s", h, f.handleVal(b, sel.X))
+		a := f.scalar(b, c.Args[0], trStr)
+		r := f.tmp()
+		b.add("let %s ← %s %s %s", r, lean, h, a)
+		return fmt.Sprintf("(%s = true)", r)
 	}
 	var target string
 	for _, fs := range trFuncs {
@@ -1052,6 +1083,7 @@ func trWorldOf(pk *gfPackage) *trWorld {
 		return nt
 	}
 	w.node, w.handle, w.holder = named(trNode), named(trHandle), named(trHolder)
+	w.ext = named(trExt)
 	ns := w.node.Underlying().(*types.Struct)
 	for i := 0; i < ns.NumFields(); i++ {
 		fl := ns.Field(i)
@@ -1089,6 +1121,9 @@ func trWorldOf(pk *gfPackage) *trWorld {
 	for i := 0; i < fs.NumFields(); i++ {
 		if p, ok := types.Unalias(fs.Field(i).Type()).(*types.Pointer); ok && types.Unalias(p.Elem()) == types.Type(w.handle) {
 			w.hldFlds = append(w.hldFlds, fs.Field(i).Name())
+		}
+		if p, ok := types.Unalias(fs.Field(i).Type()).(*types.Pointer); ok && types.Unalias(p.Elem()) == types.Type(w.ext) {
+			w.extFlds = append(w.extFlds, fs.Field(i).Name())
 		}
 	}
 	for _, fs := range trFuncs {
@@ -1305,9 +1340,12 @@ def storeFresh (t : %[2]s) (p : List UInt8) (k : UInt8) (c : %[1]s) : Option %[2
 end %[2]s
 
 `, N, H, gfLeanIdent(w.rootFld), m)
-	fmt.Fprintf(&sb, "/-- %s `type %s struct`: only its *%s fields (the translated functions touch no other) -/\nstructure %s where\n", w.pk.pos(identOfObj(w.pk, w.holder.Obj())), trHolder, H, trHolder)
+	fmt.Fprintf(&sb, "/-- %s `type %s struct`: only its *%s and *RangeList fields (the translated functions touch no other) -/\nstructure %s where\n", w.pk.pos(identOfObj(w.pk, w.holder.Obj())), trHolder, H, trHolder)
 	for _, h := range w.hldFlds {
 		fmt.Fprintf(&sb, "  %s : Option %s\n", gfLeanIdent(h), H)
+	}
+	for _, h := range w.extFlds {
+		fmt.Fprintf(&sb, "  %s : Option %s\n", gfLeanIdent(h), trExt)
 	}
 	sb.WriteString("\n")
 	return sb.String()
@@ -1348,6 +1386,7 @@ func genGofnTrie() {
   cursor: nil, or the path of map keys from the root. The receiver of a method is non-nil; a method that writes returns the handle.
 -/
 import GunYu.Basic.GoSem
+import GunYu.Gen.FnRangeList
 
 set_option linter.unusedVariables false
 
